@@ -13,6 +13,7 @@ Mk(fam, cont, n, never, b) ==
 Shapes == {<<"race", "arr">>, <<"race_ok", "arr">>, <<"race_ok", "vec">>, <<"race_ok", "tup">>}
 
 CfgsQuick ==
+  {[repoll |-> TRUE] @@ Mk("race", "arr", 2, <<>>, B(FALSE, 1, 1, 0, 0, 0, FALSE, FALSE))} \cup
   {[reuse |-> TRUE] @@ Mk(s[1], s[2], 2, <<>>, B(FALSE, 1, 1, 0, 1, 0, FALSE, FALSE)) : s \in Shapes} \cup
   {Mk(s[1], s[2], 2, <<>>, B(FALSE, 2, 2, 1, 1, 1, TRUE, TRUE)) : s \in Shapes}
   \cup {Mk(s[1], s[2], 3, nv, B(FALSE, 1, 2, 1, 1, 1, FALSE, FALSE)) : s \in Shapes, nv \in {<<>>, <<1>>}}
